@@ -40,7 +40,8 @@ ASSUMPTIONS = [
     "passwords are printable text (no control characters); a password supplied for an unencrypted key and wrong passwords are outside the property",
     "the OSCCA (SM2) and PQC key types are not installed here and are not exercised",
 ]
-FLOORS = {"lz_coord": 0.03, "lz_rs": 0.15, "pw": 0.05, "der_sig": 0.1, "prehashed": 0.03}
+FLOORS = {"lz_coord": 0.03, "lz_rs": 0.15, "lz_total:1-3": 0.01, "pw": 0.04, "der_sig": 0.06, "prehashed": 0.03, "pad:pss": 0.015,
+          "curve:secp521r1": 0.08, "der_len_eq_raw_len": 0.005, "der_len_eq_own_raw_len": 0.002, "cli:convert:RAW": 0.002}
 
 CURVES = ("secp256r1", "secp384r1", "secp521r1")
 DEFAULT_ALG = {"secp256r1": "sha256", "secp384r1": "sha384", "secp521r1": "sha512"}
@@ -154,6 +155,30 @@ def _check_certificate(o: Oracle, ck, other_ck, want_numbers, kind: str) -> None
         o.check("certificate", c.validate(c) is True and c.self_signed is True, "self_signature")
         other = Certificate.parse(K.cert_der(K.make_cert(other_ck, subject_cn="c08 other")))
         o.check("certificate", c.validate(other) is False, "foreign_issuer_accepted")
+    # a certificate signed through SPSDK's own builder: the signature over the TBS bytes is an ordinary signature
+    from cryptography import x509
+    from cryptography.x509.oid import NameOID
+
+    from spsdk.crypto.hash import EnumHashAlgorithm
+    from spsdk.crypto.keys import PrivateKey
+
+    name = x509.Name([x509.NameAttribute(NameOID.COMMON_NAME, "c08 spsdk-made")])
+    for pss in ((None, False, True) if kind == "rsa" else (None,)):
+        with o.spsdk("certificate", "generate:pss=%s" % pss):
+            sk = PrivateKey.create(ck)
+            c = Certificate.generate_certificate(name, name, sk.get_public_key(), sk, serial_number=0x4321, pss_padding=pss)
+            tbs, sig = c.tbs_certificate_bytes, c.signature
+            o.eq("certificate", "generated_public_key", nums(c.get_public_key()), want_numbers)
+            o.eq("certificate", "generated_reparse", Certificate.parse(c.export(E["DER"])).export(E["DER"]), c.export(E["DER"]))
+            if kind == "rsa":
+                ref = pk.rsa_pss_verify(want_numbers[0], want_numbers[1], sig, tbs, "sha256", salt_len=32) if pss else pk.rsa_pkcs1v15_verify(want_numbers[0], want_numbers[1], sig, tbs, "sha256")
+                own = sk.get_public_key().verify_signature(sig, tbs, EnumHashAlgorithm.SHA256, pss_padding=bool(pss))
+            else:
+                rs = pk.der_decode_sig(sig)
+                ref = rs is not None and pk.ecdsa_verify(pk.CURVES[want_numbers[2]], want_numbers[:2], rs[0], rs[1], tbs, "sha256")
+                own = sk.get_public_key().verify_signature(sig, tbs, EnumHashAlgorithm.SHA256)
+            o.check("certificate", ref, "generated_signature_reference_rejects", "pss=%s" % pss)
+            o.check("certificate", own is True, "generated_signature_rejected", "pss=%s" % pss)
 
 
 def run_ec_keys(case, o: Oracle) -> None:
@@ -439,10 +464,9 @@ def run_ec_sign(case, o: Oracle) -> None:
         o.check("ecdsa_verify", pub.verify_signature(conv, data, **kw) is True, "converted_signature_rejected")
     # ---- soundness
     with o.spsdk("ecdsa_sound", "negatives"):
-        if data:
-            o.check("ecdsa_sound", pub.verify_signature(sig, _flip(data, case["flip_m"]), **kw) is False, "modified_message_accepted")
-        if not prehashed:
-            o.check("ecdsa_sound", pub.verify_signature(sig, data + b"\0", **kw) is False, "extended_message_accepted")
+        # a different message (one bit changed / one byte appended); when pre-hashed, its digest is what is presented
+        for kind, m2 in (("modified_message_accepted", _flip(msg, case["flip_m"]) if msg else b"\0"), ("extended_message_accepted", msg + b"\0")):
+            o.check("ecdsa_sound", pub.verify_signature(sig, pk.digest(eff_alg, m2) if prehashed else m2, **kw) is False, kind)
         o.check("ecdsa_sound", pub.verify_signature(_flip(sig, case["flip_s"]), data, **kw) is False, "modified_signature_accepted", "bit %d" % (case["flip_s"] % (8 * len(sig))))
         oc = case["other_curve"]
         od = case["other"] % (pk.CURVES[oc].n - 1) + 1
@@ -606,8 +630,8 @@ def run_ec_refsig(case, o: Oracle) -> None:
     with o.spsdk("refsig_sound", "negatives"):
         o.check("refsig_sound", pub.verify_signature(_flip(raw, case["flip_s"]), data, **kw) is False, "modified_raw_accepted")
         o.check("refsig_sound", pub.verify_signature(_flip(der, case["flip_s"]), data, **kw) is False, "modified_der_accepted")
-        if not prehashed:
-            o.check("refsig_sound", pub.verify_signature(raw, data + b"x", **kw) is False, "other_message_accepted")
+        m2 = msg + b"x"
+        o.check("refsig_sound", pub.verify_signature(raw, pk.digest(alg, m2) if prehashed else m2, **kw) is False, "other_message_accepted")
         o.check("refsig_sound", pub.verify_signature(s.to_bytes(size, "big") + r.to_bytes(size, "big"), data, **kw) is False or r == s, "swapped_rs_accepted")
     lzr, lzs = size - (r.bit_length() + 7) // 8, size - (s.bit_length() + 7) // 8
     o.label("part:ec_refsig", "curve:" + curve, "mode:" + mode, "alg:" + alg, "der_sig")
@@ -633,13 +657,16 @@ def _sig_codec_case():
         general = st.tuples(_shaped_value(curve), _shaped_value(curve))
         n = pk.CURVES[curve].n
         typical = st.tuples(st.integers(1, n - 1), st.integers(1, n - 1))
-        around = []
+        mx = _max_der_len(curve)
+        near_len = st.integers(mx - 3, mx).flatmap(lambda ln: _int_with_der_len(n, ln))  # 0..3 leading zero bytes, as real signatures have
+        near = st.tuples(near_len, near_len)
+        around = []  # DER signatures about as long as a raw signature of any curve
         for raw_len in RAW_LENGTHS:
-            for delta in (-2, -1, 0, 0, 1, 2, 3):
+            for delta in (-2, -1, 0, 1, 2, 3):
                 stg = _shaped_pair_total(curve, _der_total_for(raw_len + delta))
                 if stg is not None:
                     around.append(stg)
-        pair = st.one_of(general, general, typical, st.one_of(*around))
+        pair = st.one_of(general, general, near, near, typical, st.one_of(*around))
         return pair.map(lambda t: {"curve": curve, "r": t[0], "s": t[1]})
 
     return st.sampled_from(CURVES).flatmap(for_curve)
@@ -719,13 +746,14 @@ def run_sig_codec(case, o: Oracle) -> None:
             o.eq("der_to_raw", "raw_numbers", (int.from_bytes(out[:w], "big"), int.from_bytes(out[w:], "big")), (r, s))
     # ---- a provider that returns DER is normalised to raw by get_signature
     if curve_known:
-        with o.spsdk("provider_normalise", "get_signature"):
+        with o.spsdk("der_to_raw", "provider"):
             sp = _fixed_provider()(der, 2 * size)
-            o.eq("provider_normalise", "der_to_raw", sp.get_signature(b"data"), raw)
-            o.eq("provider_normalise", "der_to_der", sp.get_signature(b"data", E["DER"]), der)
+            o.eq("der_to_raw", "provider:raw_bytes", sp.get_signature(b"data"), raw)
+            o.eq("der_to_raw", "provider:der_bytes", sp.get_signature(b"data", E["DER"]), der)
+        with o.spsdk("raw_to_der", "provider"):
             sp = _fixed_provider()(raw, 2 * size)
-            o.eq("provider_normalise", "raw_to_raw", sp.get_signature(b"data"), raw)
-            o.eq("provider_normalise", "raw_to_der", sp.get_signature(b"data", E["DER"]), der)
+            o.eq("raw_to_der", "provider:raw_bytes", sp.get_signature(b"data"), raw)
+            o.eq("raw_to_der", "provider:der_bytes", sp.get_signature(b"data", E["DER"]), der)
     lzr, lzs = size - (r.bit_length() + 7) // 8, size - (s.bit_length() + 7) // 8
     o.label("part:sig_codec", "curve:" + curve)
     if lzr or lzs:
@@ -750,7 +778,7 @@ def _rsa_sign_case():
         "flip_m": st.integers(0, 1 << 24),
         "flip_s": st.integers(0, 1 << 24),
         "other": K.rsa_key_desc(),
-        "sp": st.sampled_from([None, None, None, "file"]),
+        "sp": st.sampled_from([None, None, "file", "config"]),
     })
 
 
@@ -797,22 +825,23 @@ def run_rsa_sign(case, o: Oracle) -> None:
             # PKCS#1 v1.5 is deterministic: signing again gives the same bytes
             o.eq("rsa_verify", "deterministic", sk.sign(data, **kw), sig)
     with o.spsdk("rsa_sound", "negatives"):
-        if data:
-            o.check("rsa_sound", pub.verify_signature(sig, _flip(data, case["flip_m"]), **kw) is False, "modified_message_accepted")
-        if not prehashed:
-            o.check("rsa_sound", pub.verify_signature(sig, data + b"\0", **kw) is False, "extended_message_accepted")
+        for kind, m2 in (("modified_message_accepted", _flip(msg, case["flip_m"]) if msg else b"\0"), ("extended_message_accepted", msg + b"\0")):
+            o.check("rsa_sound", pub.verify_signature(sig, pk.digest(eff_alg, m2) if prehashed else m2, **kw) is False, kind)
         o.check("rsa_sound", pub.verify_signature(_flip(sig, case["flip_s"]), data, **kw) is False, "modified_signature_accepted")
         if dict(case["other"]) != dict(desc):
             opub = PublicKeyRsa(K.key_from_desc(case["other"]).public_key())
             o.check("rsa_sound", opub.verify_signature(sig, data, **kw) is False, "other_key_accepted", repr(case["other"]))
     if case["sp"] and not prehashed and bits == 2048:  # loading an RSA key costs 40-300 ms
-        from spsdk.crypto.signature_provider import PlainFileSP
+        from spsdk.crypto.signature_provider import PlainFileSP, get_signature_provider
 
         E = _enc()
         with o.spsdk("provider", "rsa"):
             path = _scratch("sp-rsa.der")
             sk.save(path, encoding=E["DER"])
-            sp = PlainFileSP(path, hash_alg=_alg(alg) if alg else None, pss_padding=pss)
+            if case["sp"] == "file":
+                sp = PlainFileSP(path, hash_alg=_alg(alg) if alg else None, pss_padding=pss)
+            else:  # the configuration-string path used by nxpcrypto / nxpimage
+                sp = get_signature_provider(sp_cfg="type=file;file_path=%s" % path, pss_padding=pss, hash_alg=_alg(alg) if alg else None)
             o.eq("provider", "signature_length", sp.signature_length, bits // 8)
             o.check("provider", sp.verify_public_key(pub) is True, "verify_public_key")
             for want_enc in (None, "DER"):
@@ -831,7 +860,7 @@ def _cli_case():
     key = st.one_of(ec, ec, ec, K.rsa_key_desc(sizes=(2048,)))
     return st.fixed_dictionaries({
         "key": key,
-        "op": st.sampled_from(["convert", "convert", "sign"]),
+        "op": st.sampled_from(["convert", "sign"]),
         "src": st.sampled_from(["PEM", "DER"]),
         "dst": st.sampled_from(["PEM", "DER", "RAW", "RAW"]),
         "puk": st.booleans(),
@@ -1016,5 +1045,5 @@ def parts(ctx):
         HypPart("ec_refsig", _ec_refsig_case(), run_ec_refsig, {"quick": 1200, "thorough": 60000}),
         HypPart("sig_codec", _sig_codec_case(), run_sig_codec, {"quick": 4000, "thorough": 300000}),
         HypPart("rsa_sign", _rsa_sign_case(), run_rsa_sign, {"quick": 1000, "thorough": 40000}),
-        HypPart("cli", _cli_case(), run_cli, {"quick": 400, "thorough": 12000}),
+        HypPart("cli", _cli_case(), run_cli, {"quick": 600, "thorough": 15000}),
     ]
